@@ -56,6 +56,8 @@ fn check(prop: &str, tier: Tier) -> i32 {
         "C02" => props::parser::run(props::parser::Which::C02, tier),
         "C03" => props::recovery::run(tier),
         "C06" => props::ide_sweep::run(props::ide_sweep::Which::C06, tier),
+        "C07" => props::rename::run_c07(tier),
+        "C08" => props::rename::run_c08(tier),
         "C10" => props::ide_sweep::run(props::ide_sweep::Which::C10, tier),
         "C20" => props::ide_sweep::run(props::ide_sweep::Which::C20, tier),
         "C15" => props::messages::run(tier),
@@ -86,6 +88,8 @@ fn replay(path: &str) -> i32 {
         "C02" => props::parser::replay(props::parser::Which::C02, w),
         "C03" => props::recovery::replay(w),
         "C06" => props::ide_sweep::replay(props::ide_sweep::Which::C06, w),
+        "C07" => props::rename::replay_c07(w),
+        "C08" => props::rename::replay_c08(w),
         "C10" => props::ide_sweep::replay(props::ide_sweep::Which::C10, w),
         "C20" => props::ide_sweep::replay(props::ide_sweep::Which::C20, w),
         "C15" => props::messages::replay(w),
